@@ -67,6 +67,10 @@ type Engine struct {
 	Shrink func(sc any) []any
 }
 
+// scale enlarges the scenarios of the thorough tier (1 = quick): more items, more
+// handlers, longer controller scripts. Set by the worker from SIM_TIER.
+var scale = 1
+
 var engines = map[string]*Engine{}
 
 func register(e *Engine) { engines[e.Name] = e }
